@@ -118,3 +118,79 @@ Fixpoint toks_eqb (l l' : list tok) : bool :=
   | x :: t, y :: t' => tok_eqb x y && toks_eqb t t'
   | _, _ => false
   end.
+
+(* ---- C08: the universe of the injectivity theorems, container extents, erasure ------------- *)
+(* container markers: the byte strings after which hash_update recurses *)
+Definition cmark (l : positive) : bool := (l <=? 6)%positive.
+(* labels of the fields of an object hashed through __jug_hash__ *)
+Definition is_label (l : positive) : bool := (11 <=? l)%positive && (l <=? 16)%positive.
+Definition mark_ok (m : option positive) : bool :=
+  match m with None => true | Some b => negb (is_label b) && negb (cmark b) end.
+
+Section Universe.
+  (* which dtype ids denote dtypes with dtype.hasobject (those arrays are hashed element-wise) *)
+  Variable isobj : positive -> bool.
+
+  (* The task-invocation universe: no CustomHash/NoHash (RawB) anywhere; a pickle is never one of
+     the container-marker byte strings; the array branch taken agrees with the dtype; objects
+     hashed through __jug_hash__ feed an optional non-label marker and then labelled fields. *)
+  Fixpoint wfb (v : pv) : bool :=
+    match v with
+    | Leaf l => negb (cmark l)
+    | RawB _ => false
+    | PSeq _ xs => forallb wfb xs
+    | PSet _ xs => forallb wfb xs
+    | PDict kvs => forallb (fun kv => wfb (fst kv) && wfb (snd kv)) kvs
+    | PArr d _ _ _ => negb (isobj d)
+    | PObjArr d _ xs _ => isobj d && forallb wfb xs
+    | PHashed m fs => mark_ok m && forallb (fun f => is_label (fst f) && wfb (snd f)) fs
+    end.
+
+  (* [erase] removes the length chunk after every container marker (a one-pass scan of the chunk
+     sequence; the 4th chunk after b'np.ndarray' is a length only for object dtypes) *)
+  Section EraseList.
+    Variable et : tok -> tok.
+    Fixpoint erase_list (ts : list tok) : list tok :=
+      match ts with
+      | [] => []
+      | TB m :: rest =>
+          if cmark m then
+            if (m =? M_ndarray)%positive then
+              match rest with
+              | TB d :: TB s :: x :: rest' =>
+                  TB m :: TB d :: TB s :: (if isobj d then erase_list rest' else et x :: erase_list rest')
+              | _ => TB m :: rest
+              end
+            else
+              match rest with
+              | _ :: rest' => TB m :: erase_list rest'
+              | [] => [TB m]
+              end
+          else TB m :: erase_list rest
+      | t :: rest => et t :: erase_list rest
+      end.
+  End EraseList.
+
+  Fixpoint erase_tok (t : tok) : tok :=
+    match t with
+    | TB x => TB x
+    | TDigest sub => TDigest (erase_list erase_tok sub)
+    | TPDigest sub => TPDigest (erase_list erase_tok sub)
+    end.
+  Definition erase : list tok -> list tok := erase_list erase_tok.
+End Universe.
+
+(* container extents in the order in which the markers are fed to the hash *)
+Section Lens.
+  Variable delim : bool.
+  Definition len_l (n : nat) : list nat := if delim then [] else [n].
+  Fixpoint lensd (v : pv) : list nat :=
+    match v with
+    | Leaf _ | RawB _ | PArr _ _ _ _ => []
+    | PSeq _ xs | PSet _ xs | PObjArr _ _ xs _ => len_l (length xs) ++ flat_map lensd xs
+    | PDict kvs => len_l (length kvs) ++ flat_map (fun kv => lensd (fst kv) ++ lensd (snd kv)) kvs
+    | PHashed _ fs => flat_map (fun f => lensd (snd f)) fs
+    end.
+End Lens.
+Definition lens := lensd false.
+
